@@ -56,8 +56,14 @@ func vpSetsockoptInt(fd, level, opt, value int) error {
 	return nil
 }
 
+// the same tuning through the exported API of net (a gateway that does not use reflection)
+func vpTCPSetReadBuffer(c *net.TCPConn, n int) error  { return vpSetsockoptInt(-1, 1, 8, n) }
+func vpTCPSetWriteBuffer(c *net.TCPConn, n int) error { return vpSetsockoptInt(-1, 1, 7, n) }
+
 //vp:property C10
 //vp:stub syscall.SetsockoptInt = vpSetsockoptInt
+//vp:stub (*net.conn).SetReadBuffer = vpTCPSetReadBuffer
+//vp:stub (*net.conn).SetWriteBuffer = vpTCPSetWriteBuffer
 //vp:bounds one websocket upgrade request through HandleGatewayProtocol with symbolic SendBuf/ReceiveBuf (all int values) and the client connection being each of: *tls.Conn over *net.TCPConn, bare *net.TCPConn, *tls.Conn over a non-TCP net.Conn, a non-TCP net.Conn, nil; the setsockopt call succeeds or fails; the client then drops the websocket
 //vp:assume package reflect is answered from the static types of net.TCPConn / net.conn / net.netFD / poll.FD / tls.Conn as declared in the Go release in use (engine model of ValueOf, Indirect, Kind, IsValid, FieldByName, Elem, Int with their documented panics)
 //vp:reach served tuned untuned
